@@ -29,6 +29,12 @@ fn parse_modified_hdrs(
     req_hdrs: &HeaderMap,
     last_modified: Option<SystemTime>,
 ) -> Result<(bool, bool), &'static str> {
+    // HTTP dates have one-second resolution: compare the second in which the entity was last
+    // modified, so that echoing the `Last-Modified` we sent matches a sub-second mtime.
+    let last_modified = last_modified.map(|m| match m.duration_since(SystemTime::UNIX_EPOCH) {
+        Ok(d) => SystemTime::UNIX_EPOCH + std::time::Duration::from_secs(d.as_secs()),
+        Err(_) => m,
+    });
     let precondition_failed = if !etag::any_match(etag, req_hdrs)? {
         true
     } else if let (Some(ref m), Some(since)) =
